@@ -420,15 +420,19 @@ func main() {
 	var bc blkCounters
 	runBlocks(r, f, &bc, classes, samples)
 
+	var wc wdCounters
+	runWithdraw(r, f, &wc, classes, samples)
+
 	f.close()
 	cleanup()
 
-	evals := cc.evals + rc.evals + ac.evals + bc.evals
-	nontrivial := cc.stdTrue + cc.schTrue + cc.msTrue + cc.panicsReach + rc.accepted + rc.panics + ac.accepted + ac.panics + bc.accepted + bc.panics
+	evals := cc.evals + rc.evals + ac.evals + bc.evals + wc.evals
+	nontrivial := wc.accepted + wc.panics + cc.stdTrue + cc.schTrue + cc.msTrue + cc.panicsReach + rc.accepted + rc.panics + ac.accepted + ac.panics + bc.accepted + bc.panics
 	r.Assume = append(r.Assume,
 		"RunPrograms precondition = what DefaultChecker.CheckAttributeProgram guarantees (code >= 23 bytes, non-nil parameter, Schnorr code only from NormalSchnorrStartHeight); each panic is re-validated through BlockChain.CheckTransactionSanity at mainnet height 2300000 before it is reported",
 		"classifier panics on code shorter than 23 bytes are counted (classifier_panics_unreachable) but not alarmed: no call site hands such code to the classifiers",
-		"per-transaction-type SanityCheck/SpecialContextCheck on the light-node fixture, checkCoinbaseTransactionContext and the Schnorr withdraw signer list are not driven by this check (CheckBlockSanity covers coinbase sanity only)",
+		"per-transaction-type SanityCheck/SpecialContextCheck on the light-node fixture (other than WithdrawFromSideChain v2) and checkCoinbaseTransactionContext are not driven by this check (CheckBlockSanity covers coinbase sanity only)",
+		"WithdrawFromSideChain v2 signer indexes: panics at mainnet heights below CrossChainUTXORestrictionHeight are counted (withdraw_panics_historic_only) but not alarmed — only historic blocks are validated there; under the TestNet()/RegNet() parameter sets the restriction height is disabled, so the same path is live and is alarmed",
 		"the block fixture uses mainnet parameters with a regnet proof-of-work limit so that headers can be solved")
 	r.Finish(evid.Coverage{
 		"evaluations":         evals,
@@ -437,6 +441,7 @@ func main() {
 		"rule": "scripts: {m-encoding} x key slots 0..N x {n-encoding} x final opcode x trailing byte, all prefixes of each, through IsStandard/IsSchnorr/IsMultiSig/GetCodeType; " +
 			"RunPrograms: 7 address prefixes x code kinds (valid/invalid standard, schnorr, multisig, cross-chain, all truncations >=23 bytes, garbage) x hash match/mismatch x parameter length 0..130 x {zero, valid-signature prefix} contents; " +
 			"AuxPow.Check after a wire round trip: parent coinbase TxIn 0..2 x aux branch 0..40 x size field menu x script tail lengths x marker nibble offsets x aux index menu x nonce menu x parent merkle index menu; " +
+			"WithdrawFromSideChain v2 SpecialContextCheck after a wire round trip: signer lists {0,1,n-1,n,255}^<=3 and (quorum-3 valid indexes)+{0,1,n-1,n,255}^3 x {mainnet current, mainnet below restriction height, TestNet parameters}; " +
 			"CheckBlockSanity after a wire round trip: 3 height regimes x coinbase {version, outputs 0..4, values, inputs, programs, content, attribute} full product + one deviating second transaction + structural shapes. " +
 			"non-trivial = classifier-true + accepted + panicking inputs",
 		"exhaustive":                      true,
@@ -457,6 +462,11 @@ func main() {
 		"auxpow_accepted":                 ac.accepted,
 		"auxpow_rejected":                 ac.rejected,
 		"auxpow_panics":                   ac.panics,
+		"withdraw_checks":                 wc.evals,
+		"withdraw_accepted":               wc.accepted,
+		"withdraw_rejected":               wc.rejected,
+		"withdraw_panics":                 wc.panics,
+		"withdraw_panics_historic_only":   wc.panicsHistoric,
 		"blocks_built":                    bc.built,
 		"blocks_undecodable":              bc.undecodable,
 		"blocks_checked":                  bc.evals,
@@ -511,6 +521,10 @@ func replay(r *evid.Run, f *fixture) {
 		raw, _ := hex.DecodeString(a["block"].(string))
 		var bc blkCounters
 		f.evalBlockBytes(r, fmt.Sprint(a["desc"]), raw, &bc, classes, samples)
+	case "withdraw":
+		fmt.Println("withdraw artefacts are re-derived by the enumeration: running seam 5 only")
+		var wc wdCounters
+		runWithdraw(r, f, &wc, classes, samples)
 	default:
 		evid.Fatalf("unknown artefact kind %v", a["kind"])
 	}
